@@ -20,6 +20,11 @@ ConfsConc  == {c \in AllConfs : c.maxElem = 0 /\ c.maxSize \in {0, 5} /\ c.maxCo
 
 (* Bound the exploration by the number of calls in flight being small: the   *)
 (* state space is finite by itself (hit/miss are the only growing values).   *)
+ConfsSched1 == {c \in AllConfs : c.lru /\ c.onDelete = "rec" /\ c.maxElem = 0 /\ c.maxCount = 1 /\ c.maxSize = 0}
+ConfsSched  == {c \in AllConfs : c.lru /\ c.onDelete = "rec" /\ c.maxElem = 0 /\
+                   ((c.maxCount = 1 /\ c.maxSize = 0) \/ (c.maxCount = 2 /\ c.maxSize = 0) \/ (c.maxCount = 0 /\ c.maxSize = 5))}
+MCVals1 == {K("v1", 1)}
+
 MaxGets == 3
 GetBound == hit + miss <= MaxGets
 View == core
